@@ -210,7 +210,7 @@ template <typename T> struct Uns<T, 8, true> {
 
 // One evaluation: implementation value + reference value.  pa/pb are bit patterns.
 template <typename T>
-static inline void eval(Fn f, uint64_t pa, uint64_t pb, Res& r) {
+static inline __attribute__((always_inline)) void eval(Fn f, uint64_t pa, uint64_t pb, Res& r) {
     typedef typename std::make_unsigned<T>::type UT;
     const unsigned w = 8 * sizeof(T);
     const bool sg = std::is_signed<T>::value;
@@ -313,14 +313,29 @@ static inline void eval(Fn f, uint64_t pa, uint64_t pb, Res& r) {
     }
 }
 
-typedef void (*EvalFn)(Fn, uint64_t, uint64_t, Res&);
-struct TypeInfo { const char* name; unsigned w; EvalFn eval; bool (*exists)(Fn); };
+// eval specialised for one function (the switch folds away): used by the sweeps
+template <typename T, int F>
+static void eval_fixed(uint64_t pa, uint64_t pb, Res& r) { eval<T>(static_cast<Fn>(F), pa, pb, r); }
+typedef void (*EvalFixed)(uint64_t, uint64_t, Res&);
+template <typename T, int F = 0> struct FixedTable {
+    static EvalFixed get(Fn f) { return f == F ? &eval_fixed<T, F> : FixedTable<T, F + 1>::get(f); }
+};
+template <typename T> struct FixedTable<T, FN_BAD> { static EvalFixed get(Fn) { return nullptr; } };
+
+// contiguous single-argument sweep with everything inlined (exhaustive 32-bit runs)
+struct Sweep;
+template <typename T, int F> static void sweep_fixed(uint64_t lo, uint64_t hi, Sweep& s, const char* fname, const char* tname);
+typedef void (*SweepFixed)(uint64_t, uint64_t, Sweep&, const char*, const char*);
+template <typename T, int F = 0> struct SweepTable {
+    static SweepFixed get(Fn f) { return f == F ? &sweep_fixed<T, F> : SweepTable<T, F + 1>::get(f); }
+};
+template <typename T> struct SweepTable<T, FN_BAD> { static SweepFixed get(Fn) { return nullptr; } };
+
+struct TypeInfo { const char* name; unsigned w; EvalFixed (*eval)(Fn); SweepFixed (*sweep)(Fn); bool (*exists)(Fn); };
+#define TI(n, w, T) { n, w, &FixedTable<T>::get, &SweepTable<T>::get, &fn_exists<T> }
 static const TypeInfo types[] = {
-    { "u8", 8, &eval<uint8_t>, &fn_exists<uint8_t> },     { "i8", 8, &eval<int8_t>, &fn_exists<int8_t> },
-    { "u16", 16, &eval<uint16_t>, &fn_exists<uint16_t> }, { "i16", 16, &eval<int16_t>, &fn_exists<int16_t> },
-    { "u32", 32, &eval<unsigned>, &fn_exists<unsigned> }, { "i32", 32, &eval<int>, &fn_exists<int> },
-    { "u64", 64, &eval<unsigned long long>, &fn_exists<unsigned long long> },
-    { "i64", 64, &eval<long long>, &fn_exists<long long> },
+    TI("u8", 8, uint8_t), TI("i8", 8, int8_t), TI("u16", 16, uint16_t), TI("i16", 16, int16_t),
+    TI("u32", 32, unsigned), TI("i32", 32, int), TI("u64", 64, unsigned long long), TI("i64", 64, long long),
 };
 static const TypeInfo* type_of(const std::string& s) {
     for (auto& t : types) if (s == t.name) return &t;
@@ -333,22 +348,38 @@ static inline uint64_t fold(uint64_t h, uint64_t v) { return h * 636413622384679
 struct Sweep {
     uint64_t n = 0, skip = 0, h = 0;
     std::vector<std::string> viols;
-    void one(const TypeInfo& ti, Fn f, const std::string& fname, uint64_t a, uint64_t b) {
-        Res r;
-        ti.eval(f, a, b, r);
+    void complain(const Res& r, bool two, const std::string& fname, const char* tname, uint64_t a, uint64_t b) {
+        if (viols.size() >= 2) return;
+        std::string arg = two ? (std::to_string(a) + " " + std::to_string(b)) : std::to_string(a);
+        std::string one = std::string(two ? "v2 " : "v ") + fname + " " + tname + " " + arg;
+        if (r.has_want && r.value != r.want)
+            viols.push_back(fname + " " + tname + " returns " + show128(r.value) + " definition gives " + show128(r.want) + " witness: " + one);
+        else if (r.note)
+            viols.push_back(fname + " " + tname + " " + r.note + " witness: " + one);
+    }
+    inline void account(const Res& r) {
         if (!r.executed) { ++skip; h = fold(h, SKIP_MARK); return; }
         ++n;
         h = fold(h, static_cast<uint64_t>(r.value));
-        if (viols.size() < 2) {
-            std::string arg = two_args(f) ? (std::to_string(a) + " " + std::to_string(b)) : std::to_string(a);
-            std::string one = std::string(two_args(f) ? "v2 " : "v ") + fname + " " + ti.name + " " + arg;
-            if (r.has_want && r.value != r.want)
-                viols.push_back(fname + " " + ti.name + " returns " + show128(r.value) + " definition gives " + show128(r.want) + " witness: " + one);
-            else if (r.note)
-                viols.push_back(fname + " " + ti.name + " " + r.note + " witness: " + one);
-        }
+    }
+    void one(EvalFixed ev, const TypeInfo& ti, Fn f, const std::string& fname, uint64_t a, uint64_t b) {
+        Res r;
+        ev(a, b, r);
+        account(r);
+        if (r.executed && ((r.has_want && r.value != r.want) || r.note)) complain(r, two_args(f), fname, ti.name, a, b);
     }
 };
+
+template <typename T, int F>
+static void sweep_fixed(uint64_t lo, uint64_t hi, Sweep& s, const char* fname, const char* tname) {
+    for (uint64_t x = lo;; ++x) {
+        Res r;
+        eval<T>(static_cast<Fn>(F), x, 0, r);
+        s.account(r);
+        if (__builtin_expect(r.executed && ((r.has_want && r.value != r.want) || r.note), 0)) s.complain(r, false, fname, tname, x, 0);
+        if (x == hi) break;
+    }
+}
 
 static bool parse_u64(const std::string& s, uint64_t& v) {
     if (s.empty() || s.size() > 20) return false;
@@ -377,7 +408,7 @@ static void do_int(const std::vector<std::string>& t) {
             Res r;
             uint64_t x = a[i], y = two ? a[i + 1] : 0;
             if (x > wmask) { vh::answer("bad-op"); return; }
-            ti->eval(f, x, y, r);
+            ti->eval(f)(x, y, r);
             if (!out.empty()) out += ' ';
             out += r.executed ? show128(r.value) : std::string("-");
             std::string arg = two ? (std::to_string(x) + " " + std::to_string(y)) : std::to_string(x);
@@ -391,9 +422,10 @@ static void do_int(const std::vector<std::string>& t) {
         return;
     }
     Sweep s;
+    EvalFixed ev = ti->eval(f);
     if (op == "r" && !two && a.size() == 3 && a[2] >= 1 && a[0] <= a[1] && a[1] <= wmask) {
         for (uint64_t x = a[0];; ) {
-            s.one(*ti, f, t[1], x, 0);
+            s.one(ev, *ti, f, t[1], x, 0);
             if (a[1] - x < a[2]) break;
             x += a[2];
         }
@@ -401,7 +433,7 @@ static void do_int(const std::vector<std::string>& t) {
     else if (op == "r2" && two && a.size() == 6 && a[2] >= 1 && a[5] >= 1 && a[0] <= a[1] && a[3] <= a[4] && a[1] <= wmask) {
         for (uint64_t x = a[0];; ) {
             for (uint64_t y = a[3];; ) {
-                s.one(*ti, f, t[1], x, y);
+                s.one(ev, *ti, f, t[1], x, y);
                 if (a[4] - y < a[5]) break;
                 y += a[5];
             }
@@ -419,7 +451,7 @@ static void do_int(const std::vector<std::string>& t) {
             uint64_t lo = a[0] + (total / NT) * k + (k ? 1 : 0);
             uint64_t hi = (k + 1 == NT) ? a[1] : a[0] + (total / NT) * (k + 1);
             if (k && lo > hi) continue;
-            th.emplace_back([&, k, lo, hi] { for (uint64_t x = lo;; ++x) { part[k].one(*ti, f, t[1], x, 0); if (x == hi) break; } });
+            th.emplace_back([&, k, lo, hi] { ti->sweep(f)(lo, hi, part[k], t[1].c_str(), ti->name); });
         }
         for (auto& x : th) x.join();
         for (auto& p : part) {
